@@ -2,7 +2,7 @@
 into the evidence file. The checks themselves live in lean/Insim/Props/<ID>.lean (theorems),
 harness/src/<id>.rs (correspondence streams + implementation-side oracle) and translate/*.py."""
 
-TRANSLATORS = ["vehicle", "durations"]
+TRANSLATORS = ["vehicle", "durations", "track"]
 
 TRUSTED_COMMON = [
     "Lean 4.33.0 kernel; axioms allowed: propext, Classical.choice, Quot.sound (audited with #print axioms on every run); no sorry/admit/native_decide/bv_decide/own axioms (grep on every run)",
@@ -91,5 +91,17 @@ PROPS = {
         "rule": "as C05; the oracle reads the reported version from byte 18 of the frame, independently of Packet::maybe_verify_version",
         "assumptions": [],
         "timeout": {"quick": 900, "thorough": 7200},
+    },
+    "C14": {
+        "level_text": "Lean theorems over the seven tables regenerated from track.rs on every run (variant list, licence, distance, code, is_reverse, is_open, BinRead arms, BinWrite arms): for all 154 configurations the wire form is the code NUL-padded to 6 bytes and decodes back to the same configuration (decide +kernel row by row); for EVERY byte string a successful decode re-encodes to exactly that string, hence no other 6-byte value decodes to a configuration (table lemma, not enumeration); reversed iff the code ends in R/Y, open iff X/Y, open implies no distance, one area one licence. The syntactic extraction is cross-checked against behavioural extraction through the public accessors of every variant, and the reader is driven over the whole shaped space (2.0 M strings) plus mutations and random values.",
+        "level_note": "Trusted: Lean kernel; translate/track.py (reads the eight match/matches! blocks; checks every block covers exactly the declared variants); the harness. The reader's control flow (6-byte array, first matching literal arm, else error) is hand-modelled and tied by the correspondence run.",
+        "technique": "Lean 4 proof (decide +kernel on regenerated tables + table lemmas) + translator + differential correspondence",
+        "translators": ["track"],
+        "trusted": [
+            "translate/track.py: the variant list from the enum declaration and the eight blocks of track.rs (license, distance_mile, code, is_reverse, is_open, BinRead, BinWrite, Display = code())",
+            "hand-modelled, tied by the correspondence run only: Track::read_options control flow, binrw [u8;6] primitives",
+        ],
+        "rule": "trk.info for every declared variant (taken from the enum declaration at build time), trk.dec for every shaped string whose area exists plus 1 in 97 of the others (all 2.0 M go through the oracle), every 1-byte mutation of every wire form over 9 values, lower-cased and truncated forms, random 6-byte values; distinct = distinct op text",
+        "assumptions": ["'track area' = the two letters in front of the configuration number"],
     },
 }
